@@ -20,7 +20,8 @@ THEOREMS = []  # filled at the bottom
 RULE = ("2-D (and some 3-D) cubes over cat/cat_date/mr (+ text/datetime/binned without insertions) and 1-D strands, "
         "dyadic weights incl. 0 or unweighted, 0-40 respondents with uneven missingness, 0-2 subtotal/difference "
         "insertions per categorical dimension (addends 1-3, subtrahends 0-2, stale/missing ids, negative-only, "
-        "rarely overlapping); every displayed cell x 3 directions x 4 statistics; non-trivial = some inserted cell "
+        "rarely overlapping), `pairwise_indices` settings (alpha lists, only_larger) in 40% of the cases (the MoE must "
+        "stay at 95%), large samples (x1e4..3e6); every displayed cell x 3 directions x 4 statistics; non-trivial = some inserted cell "
         "AND some base cell with a finite variance > 0; distinct = (kinds, insertion shapes, raw weighted counts)")
 ASSUMPTIONS = ["addends and subtrahends of one insertion are disjoint for the spec comparison (DESIGN N2); "
                "overlapping ones are compared with the model only",
@@ -55,8 +56,15 @@ def gen_case(rng):
         row_ins = su.gen_insertions(rng, rv, rng.randint(1, 2), p_diff=0.6, p_overlap=p_overlap)
     if cv is not None and cv.kind in ("cat", "cat_date") and rng.random() < 0.75:
         col_ins = su.gen_insertions(rng, cv, rng.randint(1, 2), p_diff=0.6, p_overlap=p_overlap)
+    # `pairwise_indices` settings of the analysis: they concern the pairwise tests only; the margin of
+    # error is at 95% (1.959964 x std-err) whatever they say
+    pairwise = None
+    if rng.random() < 0.4:
+        pairwise = {"alpha": rng.choice([[0.1], [0.01], [0.01, 0.2], [0.2, 0.1], [0.001], [0.5]])}
+        if rng.random() < 0.5:
+            pairwise["only_larger"] = rng.random() < 0.5
     return {"vars": [v.to_json() for v in vars_], "survey": gen.survey_to_json(survey), "weighted": weighted,
-            "row_ins": row_ins, "col_ins": col_ins, "scale": su.pick_scale(rng, 0.12)}
+            "row_ins": row_ins, "col_ins": col_ins, "scale": su.pick_scale(rng, 0.12), "pairwise": pairwise}
 
 
 def generate(ctx):
@@ -188,7 +196,9 @@ def evaluate(case, louts, ctx):
     resp = su.scale_response(gen.cube_response(vars_, survey, case["weighted"]), case.get("scale", 1))
     if case.get("scale", 1) > 1:
         ctx.count("large_sample_cases:%s" % ("weighted" if case["weighted"] else "unweighted"))
-    tr = su.transforms_of(case["row_ins"], case["col_ins"])
+    tr = su.transforms_of(case["row_ins"], case["col_ins"], pairwise=case.get("pairwise"))
+    if case.get("pairwise") is not None:
+        ctx.count("cases_with_pairwise_settings")
     cube = Cube(resp, transforms=tr)
     key_parts = []
     nontrivial_ins = nontrivial_base = False
@@ -310,7 +320,8 @@ def describe(case):
     vars_, survey = su.load_case(case)
     return {"kinds": [v.kind for v in vars_], "missing_flags": [v.cat_missing for v in vars_],
             "n_respondents": len(survey), "weighted": case["weighted"],
-            "row_ins": case["row_ins"], "col_ins": case["col_ins"], "first_respondents": case["survey"][:3]}
+            "row_ins": case["row_ins"], "col_ins": case["col_ins"], "pairwise": case.get("pairwise"),
+            "scale": case.get("scale", 1), "first_respondents": case["survey"][:3]}
 
 
 def shrink_candidates(case):
@@ -324,6 +335,8 @@ def shrink_candidates(case):
         yield dict(case, survey=[["1", a] for _, a in case["survey"]])
     if case.get("scale", 1) > 1:
         yield dict(case, scale=1)
+    if case.get("pairwise") is not None:
+        yield dict(case, pairwise=None)
 
 
 THEOREMS = [
